@@ -14,4 +14,5 @@ import Sml.Props.C05
 #print axioms Sml.C05.reader_no_panic
 #print axioms Sml.C05.reader_inv
 #print axioms Sml.C05.encoder_total
+#print axioms Sml.C05.encodeBuf_no_panic
 #print axioms Sml.C05.encoder_run_length
